@@ -3,6 +3,7 @@ registered for their code (else the supplied base class)."""
 from __future__ import annotations
 
 import abc
+import copy
 import itertools
 import json
 
@@ -23,11 +24,23 @@ RULE = ('one case = one constructed message (request / response / error / batch 
         'order), wire-form exactness clauses checked on the independently decoded text, exception class checked with '
         '`type(e) is expected` for registered codes, unregistered codes and a custom base class (single responses, batch '
         'elements, batch-level errors, in both orders of base-class use); plus serialise/append/extend histories on batch '
-        'objects compared with a list model. Distinct = distinct (message kind, constructor arguments / history).')
+        'objects compared with a list model. Application error classes with falsy / edge codes (0, +-1, ends of the reserved '
+        'ranges, beyond 32 / 64 bits; some with an empty class-level message) are declared late in the run - before that the '
+        'same codes are exercised as unregistered ones - and every error route (error, response, batch element, batch-level, '
+        'through the client) is repeated for them. Histories across messages: an earlier message (request / notification / '
+        'response / error response / error / batch-level error / batch request / batch response; deserialised from a document, '
+        'built by the constructor, or taken through the library\'s own text; params / result / data absent, null, empty or '
+        'filled, nested) has every mutable object it hands out (params, result, error data, to_json() output, the batch itself) '
+        'modified in place, then fresh messages of every kind - first of all those lacking the optional members - must still '
+        'round-trip exactly. Distinct = distinct (message kind, constructor arguments / history).')
 ASSUMPTIONS = [
     'values handed to constructors are JSON-encodable Python values (dict keys are strings)',
     'empty list, empty tuple, empty dict and None all mean "no parameters"; tuples come back as lists',
     '-0.0 and 0.0 are not distinguished',
+    'what a message looks like after application code modified its containers in place is not judged, only the messages '
+    'obtained afterwards are',
+    'a code for which several classes were declared belongs to the latest declaration; subclasses of a class that declares a '
+    'code (which would silently take the code over) are not declared',
 ]
 SHARDS = {'quick': 4, 'thorough': 16}
 TIMEOUT = {'quick': 300, 'thorough': 1800}
@@ -44,6 +57,9 @@ FLOORS = {'*': {
     'batch-response': 100, 'batch-level-error': 20, 'result:null': 5, 'data:null': 5, 'data:absent': 5, 'code:0': 5,
     'message:empty': 5, 'class:registered': 50, 'class:unregistered-default-base': 50, 'class:unregistered-custom-base': 50,
     'class:custom-base-in-batch': 20, 'encoder:nested': 20, 'history': 200, 'batch:len0': 2, 'via-client': 200, 'via-client:null-id-elements': 50, 'via-client:batch-level-error': 50,
+    'class:registered-edge-code': 500, 'class:registered-code-0': 50, 'survivor': 300, 'survivor:containers-modified': 3000,
+    **{f'survivor:{k}': 30 for k in ('request', 'notification', 'response', 'response-error', 'error', 'error-unregistered', 'batch-level')},
+    'survivor:batch-request': 4, 'survivor:batch-response': 4,
 }}
 
 ABSENT = '__absent__'
@@ -117,6 +133,22 @@ REGISTERED = {
 UNREGISTERED = [0, 1, -1, 2, 42, -32099, -32001, 2 ** 40, -(2 ** 40), 4711, 32000]
 BASES = {'default': JsonRpcError, 'custom': CustomBase, 'other': OtherBase, 'abc-meta': AbcBase}
 IDS = [0, 1, -1, 7, 2 ** 64, -(2 ** 63), '', '1', 'a', 'é', '\U0001F600', None]
+
+
+# Application error classes for FALSY and otherwise edgy codes: zero, +-1, the ends of the reserved ranges, codes beyond 32 / 64
+# bits. They are declared late (on the first case that needs them, see ensure_edge_classes), so that the bulk of the run still
+# sees 0, +-1, ... as UNREGISTERED codes, and so that a class declared after errors with its code were already deserialised is
+# exercised as well. Some carry a falsy class-level message.
+EDGE_CODES = {0: 'unspecified failure', 1: 'one', -1: '', 2 ** 31: 'beyond int32', -(2 ** 63): 'int64 min', 2 ** 64: 'beyond uint64',
+              -32768: 'reserved range, lower end', -32099: 'server error range, lower end', -32001: '', 32000: 'mirror of -32000'}
+EDGE_CLASSES = {}
+
+
+def ensure_edge_classes():
+    for n, (code, message) in enumerate(EDGE_CODES.items()):
+        if code not in EDGE_CLASSES:
+            EDGE_CLASSES[code] = type(JsonRpcError)(f'C5Edge{n}', (JsonRpcError,), {'code': code, 'message': message, '__doc__': 'edge code'})
+            REGISTERED[code] = EDGE_CLASSES[code]
 
 
 class Bad(Exception):
@@ -211,8 +243,12 @@ def check_error_back(ctx, err, spec, base, where):
         ctx.hit('class:registered')
     else:
         ctx.hit(f'class:unregistered-{base}-base' if base in ('default', 'custom') else 'class:unregistered-other-base')
+    if code in EDGE_CLASSES:
+        ctx.hit('class:registered-edge-code')
+        if not code:
+            ctx.hit('class:registered-code-0')
     if type(err) is not want:
-        kind = 'registered-code' if code in REGISTERED else ('unregistered-code-with-default-base' if base == 'default' else 'unregistered-code-with-user-base')
+        kind = ('registered-code:falsy-or-edge-code' if code in EDGE_CLASSES else 'registered-code') if code in REGISTERED else ('unregistered-code-with-default-base' if base == 'default' else 'unregistered-code-with-user-base')
         raise Bad(f'{where}:wrong-error-class:{kind}', got=type(err).__name__, expected=want.__name__, spec=spec)
 
 
@@ -349,20 +385,25 @@ def run_response(ctx, id, result, error, base):
            sample={'message': 'Response', 'id': id, 'result': result, 'error': error, 'error_cls': base, 'wire': t1})
 
 
+def error_roundtrip(ctx, error, base):
+    e = make_error(error)
+    w1, t1, d1 = texts(e)
+    check_error_obj(ctx, d1, error, 'error')
+    e2 = BASES[base].from_json(json.loads(t1))
+    check_error_back(ctx, e2, error, base, 'error')
+    if not typed_eq(norm(w1), norm(e2.to_json())):
+        raise Bad('error:second-serialisation-differs', first=w1, second=e2.to_json())
+    nested = json.dumps({'wrapped': [e, {'deep': v20.Request('m', [1], 1)}]}, cls=pjrpc.JSONEncoder)
+    if not typed_eq(strictjson.decode(nested), {'wrapped': [norm(w1), {'deep': {'jsonrpc': '2.0', 'method': 'm', 'id': 1, 'params': [1]}}]}):
+        raise Bad('error:nested-encoding-differs', nested=nested)
+    ctx.hit('encoder:nested')
+    return t1
+
+
 def run_error(ctx, error, base):
     cls = ('error', repr(error), base)
     try:
-        e = make_error(error)
-        w1, t1, d1 = texts(e)
-        check_error_obj(ctx, d1, error, 'error')
-        e2 = BASES[base].from_json(json.loads(t1))
-        check_error_back(ctx, e2, error, base, 'error')
-        if not typed_eq(norm(w1), norm(e2.to_json())):
-            raise Bad('error:second-serialisation-differs', first=w1, second=e2.to_json())
-        nested = json.dumps({'wrapped': [e, {'deep': v20.Request('m', [1], 1)}]}, cls=pjrpc.JSONEncoder)
-        if not typed_eq(strictjson.decode(nested), {'wrapped': [norm(w1), {'deep': {'jsonrpc': '2.0', 'method': 'm', 'id': 1, 'params': [1]}}]}):
-            raise Bad('error:nested-encoding-differs', nested=nested)
-        ctx.hit('encoder:nested')
+        t1 = error_roundtrip(ctx, error, base)
     except Bad as b:
         ctx.violation(b.mech, 'error', cls, error=error, base=base, **b.w)
         return
@@ -373,33 +414,43 @@ def run_error(ctx, error, base):
     ctx.ok('error', cls, sample={'message': 'JsonRpcError', 'spec': error, 'error_cls': base, 'wire': t1})
 
 
+def batch_request_roundtrip(ctx, items):
+    reqs = [v20.Request(m, decode_params(p), i) for m, p, i in items]
+    msg = v20.BatchRequest(*reqs)
+    w1, t1, d1 = texts(msg)
+    if not isinstance(d1, list) or len(d1) != len(items):
+        raise Bad('batch-request:wire-length-wrong', text=t1)
+    for (m, p, i), el in zip(items, d1):
+        if el.get('method') != m or ('id' in el) != (i is not None) or (i is not None and not typed_eq(el['id'], i)):
+            raise Bad('batch-request:wire-element-order-or-identity-wrong', text=t1)
+        pp = decode_params(p)
+        if ('params' in el) != (not no_params(pp)) or ('params' in el and not typed_eq(el['params'], norm(pp))):
+            raise Bad('batch-request:wire-element-params-wrong', text=t1)
+    if not items:
+        return None
+    m2 = v20.BatchRequest.from_json(json.loads(t1))
+    if len(m2) != len(items):
+        raise Bad('batch-request:length-changed', back=repr(m2))
+    for (m, p, i), r in zip(items, m2):
+        pp = decode_params(p)
+        if r.method != m or not typed_eq(r.id, i) or (no_params(pp) != no_params(r.params)) or \
+                (not no_params(pp) and not typed_eq(norm(r.params), norm(pp))):
+            raise Bad('batch-request:element-changed-or-reordered', back=repr(m2))
+    if not typed_eq(norm(w1), norm(m2.to_json())):
+        raise Bad('batch-request:second-serialisation-differs')
+    if msg.is_notification != all(i is None for _, _, i in items):
+        raise Bad('batch-request:is_notification-wrong')
+    return t1
+
+
 def run_batch_request(ctx, items):
     cls = ('batch-request', repr(items))
     try:
-        reqs = [v20.Request(m, decode_params(p), i) for m, p, i in items]
-        msg = v20.BatchRequest(*reqs)
-        w1, t1, d1 = texts(msg)
-        if not isinstance(d1, list) or len(d1) != len(items):
-            raise Bad('batch-request:wire-length-wrong', text=t1)
-        for (m, p, i), el in zip(items, d1):
-            if el.get('method') != m or ('id' in el) != (i is not None) or (i is not None and not typed_eq(el['id'], i)):
-                raise Bad('batch-request:wire-element-order-or-identity-wrong', text=t1)
+        t1 = batch_request_roundtrip(ctx, items)
         if not items:
             ctx.hit('batch:len0')
             ctx.ok('batch-request:empty', cls)
             return
-        m2 = v20.BatchRequest.from_json(json.loads(t1))
-        if len(m2) != len(items):
-            raise Bad('batch-request:length-changed', back=repr(m2))
-        for (m, p, i), r in zip(items, m2):
-            pp = decode_params(p)
-            if r.method != m or not typed_eq(r.id, i) or (no_params(pp) != no_params(r.params)) or \
-                    (not no_params(pp) and not typed_eq(norm(r.params), norm(pp))):
-                raise Bad('batch-request:element-changed-or-reordered', back=repr(m2))
-        if not typed_eq(norm(w1), norm(m2.to_json())):
-            raise Bad('batch-request:second-serialisation-differs')
-        if msg.is_notification != all(i is None for _, _, i in items):
-            raise Bad('batch-request:is_notification-wrong')
     except Bad as b:
         ctx.violation(b.mech, 'batch-request', cls, items=items, **b.w)
         return
@@ -410,31 +461,36 @@ def run_batch_request(ctx, items):
     ctx.ok(f'batch-request:len{min(len(items), 5)}', cls, sample={'message': 'BatchRequest', 'items': items, 'wire': t1})
 
 
+def batch_response_roundtrip(ctx, items, base):
+    resps = [v20.Response(i, result=r) if e is None else v20.Response(i, error=make_error(e)) for i, r, e in items]
+    msg = v20.BatchResponse(*resps)
+    w1, t1, d1 = texts(msg)
+    if not isinstance(d1, list) or len(d1) != len(items):
+        raise Bad('batch-response:wire-length-wrong', text=t1)
+    for (i, r, e), el in zip(items, d1):
+        check_response_doc(ctx, el, i, r, e, t1)
+    m2 = v20.BatchResponse.from_json(json.loads(t1), error_cls=BASES[base])
+    if len(m2) != len(items) or not m2.is_success:
+        raise Bad('batch-response:length-or-status-changed', back=repr(m2))
+    for (i, r, e), back in zip(items, m2):
+        check_response_back(ctx, back, i, r, e, base, 'batch-response-element')
+        if e is not None and base != 'default' and e[0] not in REGISTERED:
+            ctx.hit('class:custom-base-in-batch')
+    if not typed_eq(norm(w1), norm(m2.to_json())):
+        raise Bad('batch-response:second-serialisation-differs')
+    if m2.has_error != any(e is not None for _, _, e in items):
+        raise Bad('batch-response:has_error-wrong')
+    if not any(e is not None for _, _, e in items):
+        if not typed_eq(norm(list(m2.result)), norm([r for _, r, _ in items])):
+            raise Bad('batch-response:result-tuple-wrong', got=repr(m2.result))
+    return t1
+
+
 def run_batch_response(ctx, items, base):
     """items: [id, result, error-spec-or-None]"""
     cls = ('batch-response', repr(items), base)
     try:
-        resps = [v20.Response(i, result=r) if e is None else v20.Response(i, error=make_error(e)) for i, r, e in items]
-        msg = v20.BatchResponse(*resps)
-        w1, t1, d1 = texts(msg)
-        if not isinstance(d1, list) or len(d1) != len(items):
-            raise Bad('batch-response:wire-length-wrong', text=t1)
-        for (i, r, e), el in zip(items, d1):
-            check_response_doc(ctx, el, i, r, e, t1)
-        m2 = v20.BatchResponse.from_json(json.loads(t1), error_cls=BASES[base])
-        if len(m2) != len(items) or not m2.is_success:
-            raise Bad('batch-response:length-or-status-changed', back=repr(m2))
-        for (i, r, e), back in zip(items, m2):
-            check_response_back(ctx, back, i, r, e, base, 'batch-response-element')
-            if e is not None and base != 'default' and e[0] not in REGISTERED:
-                ctx.hit('class:custom-base-in-batch')
-        if not typed_eq(norm(w1), norm(m2.to_json())):
-            raise Bad('batch-response:second-serialisation-differs')
-        if m2.has_error != any(e is not None for _, _, e in items):
-            raise Bad('batch-response:has_error-wrong')
-        if not any(e is not None for _, _, e in items):
-            if not typed_eq(norm(list(m2.result)), norm([r for _, r, _ in items])):
-                raise Bad('batch-response:result-tuple-wrong', got=repr(m2.result))
+        t1 = batch_response_roundtrip(ctx, items, base)
         if not items:
             ctx.hit('batch:len0')
     except Bad as b:
@@ -447,27 +503,34 @@ def run_batch_response(ctx, items, base):
     ctx.ok(f'batch-response:len{min(len(items), 5)}', cls, sample={'message': 'BatchResponse', 'items': items, 'error_cls': base, 'wire': t1})
 
 
+def batch_level_roundtrip(ctx, error, base):
+    msg = v20.BatchResponse(error=make_error(error))
+    w1, t1, d1 = texts(msg)
+    if not isinstance(d1, dict) or d1.get('jsonrpc') != '2.0' or 'id' not in d1 or d1['id'] is not None or 'result' in d1:
+        raise Bad('batch-level:wire-form-wrong', text=t1)
+    check_error_obj(ctx, d1.get('error'), error, 'batch-level')
+    if set(d1) - {'jsonrpc', 'id', 'error'}:
+        raise Bad('batch-level:wire-extra-members', text=t1)
+    m2 = v20.BatchResponse.from_json(json.loads(t1), error_cls=BASES[base])
+    if m2.is_success or len(m2) != 0:
+        raise Bad('batch-level:error-became-success', back=repr(m2))
+    check_error_back(ctx, m2.error, error, base, 'batch-level')
+    try:
+        m2.result
+    except JsonRpcError as e:
+        if e is not m2.error:
+            raise Bad('batch-level:result-raises-a-different-error')
+    else:
+        raise Bad('batch-level:result-does-not-raise')
+    if not typed_eq(norm(w1), norm(m2.to_json())):
+        raise Bad('batch-level:second-serialisation-differs')
+    return t1
+
+
 def run_batch_level(ctx, error, base):
     cls = ('batch-level', repr(error), base)
     try:
-        msg = v20.BatchResponse(error=make_error(error))
-        w1, t1, d1 = texts(msg)
-        if not isinstance(d1, dict) or d1.get('jsonrpc') != '2.0' or 'id' not in d1 or d1['id'] is not None or 'result' in d1:
-            raise Bad('batch-level:wire-form-wrong', text=t1)
-        check_error_obj(ctx, d1.get('error'), error, 'batch-level')
-        m2 = v20.BatchResponse.from_json(json.loads(t1), error_cls=BASES[base])
-        if m2.is_success or len(m2) != 0:
-            raise Bad('batch-level:error-became-success', back=repr(m2))
-        check_error_back(ctx, m2.error, error, base, 'batch-level')
-        try:
-            m2.result
-        except JsonRpcError as e:
-            if e is not m2.error:
-                raise Bad('batch-level:result-raises-a-different-error')
-        else:
-            raise Bad('batch-level:result-does-not-raise')
-        if not typed_eq(norm(w1), norm(m2.to_json())):
-            raise Bad('batch-level:second-serialisation-differs')
+        t1 = batch_level_roundtrip(ctx, error, base)
     except Bad as b:
         ctx.violation(b.mech, 'batch-level', cls, error=error, base=base, **b.w)
         return
@@ -595,6 +658,216 @@ def run_history(ctx, which, ops):
     ctx.ok(f'history:{which}', cls, sample={'batch': which, 'ops': ops})
 
 
+def run_edge(ctx, route, args):
+    """the ordinary round trips for errors whose code has an application class with a falsy / edge code (declared on first use)"""
+    ensure_edge_classes()
+    KINDS[route](ctx, **args)
+
+
+# ---- state surviving between messages -------------------------------------------------------------------
+# One message is obtained (deserialised from a text, built with the constructor, or taken through the library's own text), then
+# application code modifies - IN PLACE - every mutable thing the message hands out: params list / dict, result containers, error
+# data, the dict / list returned by to_json(), for batches also the batch itself (append / extend). The statement is about every
+# message on its own: whatever happened to an earlier message, the NEXT messages (fresh ones, of every kind, above all those
+# that lack the optional members) still round-trip exactly. Only the later messages are judged; what the modified message itself
+# looks like afterwards is not (the statement says nothing about modification).
+MARK = '__c5_injected__'
+PAYLOADS = {'absent': ABSENT, 'none': None, 'empty-list': [], 'empty-dict': {}, 'list': [1, 'a'], 'dict': {'a': 1},
+            'nested-dict': {'l': [], 'd': {}, 'n': None}, 'nested-list': [[], {}, [1]]}
+
+
+def mutate_in_place(v):
+    """-> number of containers modified"""
+    n = 0
+    if isinstance(v, list):
+        for x in list(v):
+            n += mutate_in_place(x)
+        v.append(MARK)
+        v.insert(0, MARK)
+        v += [MARK]
+        v.extend([[MARK]])
+        return n + 1
+    if isinstance(v, dict):
+        for x in list(v.values()):
+            n += mutate_in_place(x)
+        v[MARK] = MARK
+        v.update({'injected': [MARK]})
+        v.setdefault('params', [MARK])
+        v.setdefault('data', MARK)
+        return n + 1
+    return n
+
+
+def _fresh(name):
+    return copy.deepcopy(PAYLOADS[name])
+
+
+def obtain(kind, route, payload):
+    """the earlier message. route: 'wire' (a hand-written valid document is deserialised), 'ctor' (constructor), 'own-text'
+    (constructor -> library encoder -> decode -> from_json). -> message or None when the combination does not exist"""
+    v = _fresh(payload)
+    absent = isinstance(v, str) and v == ABSENT
+    env = {'jsonrpc': '2.0'}
+    if kind in ('request', 'notification'):
+        idm = {} if kind == 'notification' else {'id': 'p1'}
+        if route == 'wire':
+            if v is None:
+                return None
+            return v20.Request.from_json({**env, **idm, 'method': 'polluter', **({} if absent else {'params': v})})
+        msg = v20.Request('polluter', id=idm.get('id')) if absent else v20.Request('polluter', v, idm.get('id'))
+        return msg if route == 'ctor' else v20.Request.from_json(json.loads(json.dumps(msg, cls=pjrpc.JSONEncoder)))
+    if kind == 'response':
+        if absent:
+            return None
+        if route == 'wire':
+            return v20.Response.from_json({**env, 'id': 'p1', 'result': v})
+        msg = v20.Response('p1', result=v)
+        return msg if route == 'ctor' else v20.Response.from_json(json.loads(json.dumps(msg, cls=pjrpc.JSONEncoder)))
+    code, message = {'response-error': (5, 'm'), 'error': (71001, 'c5 typed one'), 'batch-level': (71003, 'c5 typed three'),
+                     'error-unregistered': (-7, '')}[kind]
+    eobj = {'code': code, 'message': message, **({} if absent else {'data': v})}
+    err = make_error([code, message, ABSENT if absent else v])
+    if kind == 'response-error':
+        if route == 'wire':
+            return v20.Response.from_json({**env, 'id': 'p1', 'error': eobj})
+        msg = v20.Response('p1', error=err)
+        return msg if route == 'ctor' else v20.Response.from_json(json.loads(json.dumps(msg, cls=pjrpc.JSONEncoder)))
+    if kind in ('error', 'error-unregistered'):
+        if route == 'wire':
+            return JsonRpcError.from_json(eobj)
+        return err if route == 'ctor' else CustomBase.from_json(json.loads(json.dumps(err, cls=pjrpc.JSONEncoder)))
+    if kind == 'batch-level':
+        if route == 'wire':
+            return v20.BatchResponse.from_json({**env, 'id': None, 'error': eobj})
+        msg = v20.BatchResponse(error=err)
+        return msg if route == 'ctor' else v20.BatchResponse.from_json(json.loads(json.dumps(msg, cls=pjrpc.JSONEncoder)))
+    raise AssertionError(kind)
+
+
+def obtain_batch(which, route):
+    """a batch whose elements cover every payload flavour"""
+    names = list(PAYLOADS)
+    if which == 'request':
+        docs, reqs = [], []
+        for k, nm in enumerate(names):
+            v, w = _fresh(nm), _fresh(nm)
+            absent = isinstance(v, str) and v == ABSENT
+            idm = {} if k % 3 == 2 else {'id': f'p{k}'}
+            if v is not None:
+                docs.append({'jsonrpc': '2.0', **idm, 'method': f'polluter{k}', **({} if absent else {'params': w})})
+            reqs.append(v20.Request(f'polluter{k}', id=idm.get('id')) if absent else v20.Request(f'polluter{k}', v, idm.get('id')))
+        if route == 'wire':
+            return v20.BatchRequest.from_json(docs)
+        msg = v20.BatchRequest(*reqs)
+        return msg if route == 'ctor' else v20.BatchRequest.from_json(json.loads(json.dumps(msg, cls=pjrpc.JSONEncoder)))
+    docs, resps = [], []
+    for k, nm in enumerate(names):
+        v, w = _fresh(nm), _fresh(nm)
+        absent = isinstance(v, str) and v == ABSENT
+        if not absent:
+            docs.append({'jsonrpc': '2.0', 'id': f'r{k}', 'result': w})
+            resps.append(v20.Response(f'r{k}', result=v))
+        v, w = _fresh(nm), _fresh(nm)
+        code, message = ((5, 'm'), (71002, 'c5 typed two'), (71003, 'c5 typed three'))[k % 3]
+        docs.append({'jsonrpc': '2.0', 'id': None if k == 1 else f'e{k}', 'error': {'code': code, 'message': message, **({} if absent else {'data': w})}})
+        resps.append(v20.Response(None if k == 1 else f'e{k}', error=make_error([code, message, ABSENT if absent else v])))
+    if route == 'wire':
+        return v20.BatchResponse.from_json(docs)
+    msg = v20.BatchResponse(*resps)
+    return msg if route == 'ctor' else v20.BatchResponse.from_json(json.loads(json.dumps(msg, cls=pjrpc.JSONEncoder)))
+
+
+def modify_everything(msg):
+    """what application code may do to a message it was handed. -> number of containers modified in place"""
+    n = 0
+    if isinstance(msg, (v20.BatchRequest, v20.BatchResponse)):
+        for el in list(msg):
+            n += modify_everything(el)
+        if isinstance(msg, v20.BatchRequest):
+            msg.append(v20.Request('injected', [MARK], id=MARK))
+            msg.extend([v20.Request('injected2'), v20.Request('injected3', {MARK: MARK}, id=MARK + '2')])
+            n += 1
+        elif msg.is_success:
+            msg.append(v20.Response(MARK, result=[MARK]))
+            msg.extend([v20.Response(MARK + '2', error=JsonRpcError(code=5, message='m', data=[MARK]))])
+            n += 1
+        else:
+            n += mutate_in_place(msg.error.data)
+    elif isinstance(msg, v20.Request):
+        n += mutate_in_place(msg.params)
+    elif isinstance(msg, v20.Response):
+        if msg.is_success:
+            n += mutate_in_place(msg.result)
+        else:
+            n += mutate_in_place(msg.error.data)
+            n += mutate_in_place(msg.get_error().data)
+    elif isinstance(msg, JsonRpcError):
+        n += mutate_in_place(msg.data)
+    n += mutate_in_place(msg.to_json())
+    return n
+
+
+def later_messages(ctx):
+    """fresh messages of every kind, first of all those lacking the optional members -> first Bad or None"""
+    reqs = [('ping', None, 2), ('ping', None, None), ('p', [], 3), ('p', {}, 's'), ('p', (), None), ('p', [1], 4), ('p', {'a': 1}, 5),
+            ('p', [[]], 6), ('p', {'k': {}}, None)]
+    resps = [(1, None, None), (7, [], None), (2, {}, None), ('s', [1], None), (0, {'a': 1}, None), (None, [[]], None), (3, {'l': [], 'd': {}}, None)]
+    errs = [[5, 'm', ABSENT], [5, 'm', None], [5, 'm', []], [5, 'm', {}], [5, 'm', [1]], [-7, '', ABSENT], [-7, '', {}],
+            [71001, 'c5 typed one', ABSENT], [71001, 'c5 typed one', {}], [71003, 'c5 typed three', ABSENT], [71003, 'other', []],
+            [-32601, 'Method not found', ABSENT], [-32000, 'Server error', []]]
+    try:
+        for m, p, i in copy.deepcopy(reqs):
+            request_roundtrip(ctx, m, p, i)
+        for i, r, e in copy.deepcopy(resps):
+            response_roundtrip(ctx, i, r, e, 'default')
+        for k, spec in enumerate(copy.deepcopy(errs)):
+            base = ('default', 'custom', 'other')[k % 3]
+            response_roundtrip(ctx, k, None, spec, base)
+            error_roundtrip(ctx, copy.deepcopy(spec), base)
+            batch_level_roundtrip(ctx, copy.deepcopy(spec), base)
+        batch_request_roundtrip(ctx, [[m, encode_params(p), i] for m, p, i in copy.deepcopy(reqs)])
+        batch_request_roundtrip(ctx, [['a', ['none', None], 1], ['b', ['none', None], None], ['c', ['list', [1]], 3]])
+        batch_request_roundtrip(ctx, [])
+        batch_response_roundtrip(ctx, [[i, r, e] for i, r, e in copy.deepcopy(resps) if i is not None], 'default')
+        batch_response_roundtrip(ctx, [[k, None, spec] for k, spec in enumerate(copy.deepcopy(errs))], 'custom')
+        batch_response_roundtrip(ctx, [], 'default')
+    except Bad as b:
+        return b
+    except Exception as ex:
+        return Bad(f'roundtrip-raises:{type(ex).__name__}', exception=repr(ex))
+    return None
+
+
+def run_survivor(ctx, kind, route, payload):
+    cls = ('survivor', kind, route, payload)
+    desc = {'earlier_message': kind, 'obtained_by': route, 'payload': payload}
+    b = later_messages(ctx)
+    if b is not None:
+        ctx.violation(b.mech, 'survivor', cls, phase='before anything was modified', **desc, **b.w)
+        return
+    try:
+        msg = obtain_batch(kind[6:], route) if kind.startswith('batch-re') else obtain(kind, route, payload)
+        if msg is None:
+            ctx.skip('survivor:combination-does-not-exist')
+            return
+        touched = modify_everything(msg)
+    except Exception as ex:
+        # a valid message could not be obtained / modified through the public API at all
+        ctx.violation(f'survivor:obtaining-or-modifying-the-earlier-message-raises:{type(ex).__name__}', 'survivor', cls, exception=ex, **desc)
+        return
+    if not touched:
+        ctx.unjudge('survivor:nothing-mutable-handed-out')
+    ctx.hit('survivor:containers-modified', touched)
+    b = later_messages(ctx)
+    if b is not None:
+        ctx.violation(f'in-place-modification-of-an-earlier-{kind.replace("notification", "request")}-changes-later-messages:{b.mech}', 'survivor', cls,
+                      phase='after the earlier message was modified in place', **desc, **b.w)
+        return
+    ctx.hit('survivor')
+    ctx.hit('survivor:' + kind)
+    ctx.ok(f'survivor:{kind}:{route}', cls, sample=desc)
+
+
 # ---- generation ---------------------------------------------------------------------------------------
 
 def error_specs(rng, full):
@@ -620,6 +893,7 @@ def gen(ctx):
     # sign), names with surrounding blanks and names differing in case only: a method name is an opaque string
     methods = ['m', '', 'a.b', 'é', 'rpc.x', '\U0001F600', 'x' * 100, 'cafe\u0301', '\ufb01le.read', '\uff46\uff55\uff4c\uff4c',
                'x\u00b2', '\u212b', ' padded ', 'CamelCase', 'camelcase', '_private', '__dunder__', 'a..b', 'tab\tname']
+    yield from survivor_cases()
     # requests
     for _ in range(n):
         yield 'request', {'method': rng.choice(methods), 'params': encode_params(values.params(rng)), 'id': rng.choice(IDS)}
@@ -698,8 +972,38 @@ def gen(ctx):
                 continue
             for which in ('request', 'response'):
                 yield 'history', {'which': which, 'ops': [ops_alpha[k] for k in seq]}
+    yield from survivor_cases()
+    # LAST (the classes exist from here on): application classes declared for falsy / edge codes
+    yield from edge_cases(rng)
+    yield from survivor_cases()
+
+
+def survivor_cases():
+    for route in ('wire', 'ctor', 'own-text'):
+        for kind in ('request', 'notification', 'response', 'response-error', 'error', 'error-unregistered', 'batch-level'):
+            for payload in PAYLOADS:
+                yield 'survivor', {'kind': kind, 'route': route, 'payload': payload}
+        for kind in ('batch-request', 'batch-response'):
+            yield 'survivor', {'kind': kind, 'route': route, 'payload': 'all'}
+
+
+def edge_cases(rng):
+    for code, cls_message in EDGE_CODES.items():
+        for message in dict.fromkeys((cls_message, 'some other text', '')):
+            for data in (ABSENT, None, {'reason': 'n/a'}, 0):
+                spec = [code, message, data]
+                for base in ('default', 'custom', 'abc-meta'):
+                    yield 'edge', {'route': 'error', 'args': {'error': spec, 'base': base}}
+                    yield 'edge', {'route': 'response', 'args': {'id': rng.choice(IDS), 'result': None, 'error': spec, 'base': base}}
+                    yield 'edge', {'route': 'batch_level', 'args': {'error': spec, 'base': base}}
+                yield 'edge', {'route': 'batch_response', 'args': {'items': [[1, None, None], [0, None, spec], ['', [], None], [None, None, spec]],
+                                                                    'base': rng.choice(list(BASES))}}
+        yield 'edge', {'route': 'via_client', 'args': dict(items=[[1, 'r', None], [0, None, [code, cls_message, ABSENT]]], extra_null=[], order=[1, 0],
+                                                           strict=True, is_async=bool(code % 2))}
+        yield 'edge', {'route': 'via_client_batch_error', 'args': dict(n_calls=2, n_notifs=1, spec=[code, cls_message, [code]], strict=True,
+                                                                       is_async=not code % 2)}
 
 
 KINDS = {'request': run_request, 'response': run_response, 'error': run_error, 'batch_request': run_batch_request,
          'batch_response': run_batch_response, 'batch_level': run_batch_level, 'history': run_history, 'via_client': run_via_client,
-         'via_client_batch_error': run_via_client_batch_error}
+         'via_client_batch_error': run_via_client_batch_error, 'edge': run_edge, 'survivor': run_survivor}
